@@ -27,7 +27,7 @@ EV = ("e1", "e2")
 ENT = ("a", "b", "c")
 ALL_ACTS = ["define", "del", "rebind", "push", "pop", "clear", "reload", "close", "unload", "boot", "fire", "set",
             "call", "out"]
-ALL_FLAGS = ["service-handler-not-repointed", "notify-del-returns-early", "dm-delayed-start-ignores-drop",
+ALL_FLAGS = ["legacy-stop-before-first-run-leaks", "service-handler-not-repointed", "notify-del-returns-early", "dm-delayed-start-ignores-drop",
              "dm-start-order-arbitrary", "dm-service-owner-is-evaluator-name", "dm-service-multi-arg-rejected"]
 DM_ONLY = {f for f in ALL_FLAGS if f.startswith("dm-")}
 WHAT = {
@@ -45,6 +45,11 @@ WHAT = {
                                           "take-over (the closure stays inert), or later top-level declarations are refused",
     "dm-service-multi-arg-rejected": "dm: @service with several names as arguments (documented) is refused: nothing of the "
                                      "function is registered",
+    "legacy-stop-before-first-run-leaks": "legacy: a function stopped before its trigger task ran its first step (deleted, "
+                                          "redefined or its context closed right after the start, without quiescence in "
+                                          "between): TrigInfo.stop finds nothing to unsubscribe, then the task subscribes and "
+                                          "is cancelled by the reaper - its State.notify queues and its event queue / bus "
+                                          "listener stay (no run: the task is gone)",
     "unexplained": "recording is not a behaviour of the lifecycle model under any combination of the named deviations",
 }
 NODECL = {"st": [], "ev": [], "tt": [], "svc": [], "resp": "none", "sf": "stack"}
@@ -132,8 +137,18 @@ def run_case(case):
         sink = []
         base["sink"] = sink
 
+        def tname(v):
+            return {str: "str", int: "int", bool: "bool", type(None): "none"}.get(type(v), type(v).__name__)
+
         async def handler(call):
-            sink.append(canon({k: v for k, v in call.data.items()}))
+            # records exactly what arrives: every data item with the type and text of its value, and whether the
+            # call ran under the script's Context; "done" tells whether the caller waited (see vf.sinkdone)
+            rec = {"data": [{"k": k, "t": tname(v), "v": str(v)} for k, v in sorted(call.data.items())],
+                   "ctx": call.context.id == "vfctx", "done": False}
+            sink.append(rec)
+            await asyncio.sleep(0)
+            await asyncio.sleep(0)
+            rec["done"] = True
             return {"ok": "1"}
         hass.services.async_register("vt", "sink", handler, supports_response=SupportsResponse.OPTIONAL)
         for x in ENT:
@@ -171,7 +186,7 @@ def run_case(case):
             data = canon({k2: str(v) for k2, v in kw.items()})
             rec.append({"g": gen, "k": k, "x": x, "data": data})
             return data
-        Function.register({"vf.rc": rc})
+        Function.register({"vf.rc": rc, "vf.sinkdone": lambda: bool(base["sink"] and base["sink"][-1]["done"])})
 
         state = {"unloaded": False, "nset": 0, "mtime": 2000, "cell": None}
 
@@ -272,6 +287,8 @@ def run_case(case):
                 ha_dirty.append("timers:%d" % dt)
             if own:
                 ha_dirty.append("tasks:%d" % own)
+            if ha_dirty == ["listeners:" + ",".join(dl)] and set(dl) <= set(EV):
+                return "listeners"            # only listeners of the model's own event types are left
             if ha_dirty:
                 return "dirty:" + ";".join(ha_dirty)
             queues = sum(len(q) for q in State.notify.values()) + sum(len(q) for q in Event.notify.values())
@@ -338,17 +355,25 @@ def run_case(case):
                     res = {"k": "err", "g": 0, "data": "-"}
             elif k == "out":
                 kws = []
-                for key, v in [p.split("=", 1) for p in a["give"].split(",")]:
-                    kws.append("%s=%s" % (key, v if v in ("True", "False") else repr(v)))
+                for kw in a["give"]:
+                    val = {"str": repr(kw["v"]), "int": kw["v"], "bool": kw["v"], "none": "None",
+                           "ctx": "Context(id=%r)" % kw["v"]}[kw["t"]]
+                    kws.append("%s=%s" % (kw["k"], val))
                 del base["sink"][:]
-                if a["form"] == "name":
-                    src = "vf_o = vt.sink(%s)\n" % ", ".join(kws)
-                else:
-                    src = 'vf_o = service.call("vt", "sink", %s)\n' % ", ".join(kws)
+                call = "vt.sink(%s)" if a["form"] == "name" else 'service.call("vt", "sink", %s)'
+                # vf_b: had the service finished when the call returned (= the caller waited: blocking)
+                src = "from homeassistant.core import Context\nvf_o = %s\nvf_b = vf.sinkdone()\n" % (call % ", ".join(kws))
                 await ex(a["c"], src)
+                sym = GlobalContextMgr.get(CTXNAME[a["c"]]).global_sym_table
+                vf_o, vf_b = sym.get("vf_o"), sym.get("vf_b")
                 await quiesce()
                 got = list(base["sink"])
-                res = {"k": "out", "g": 0, "data": got[0] if len(got) == 1 else "calls:%d" % len(got)}
+                if len(got) == 1:
+                    res = {"k": "out", "g": 0, "data": "-",
+                           "o": {"data": got[0]["data"], "ctx": bool(got[0]["ctx"]), "blk": bool(vf_b),
+                                 "rsp": vf_o == {"ok": "1"}}}
+                else:
+                    res = {"k": "calls:%d" % len(got), "g": 0, "data": "-"}
             else:
                 raise ValueError(k)
             return res
@@ -358,8 +383,29 @@ def run_case(case):
         gc.freeze()
         if rec:
             out["error"] = "runs before the first step: %r" % rec[:3]
+        # "rush" steps: the next action is issued at once, without waiting for quiescence and without an
+        # observation (a deletion / redefinition / reload landing while the managers of the previous action are
+        # still starting).  To make that window exist whatever the executor does, the refresh of the service
+        # descriptions that ServiceDecorator.start awaits takes 3 ms of virtual time in such cases.
+        rushing = any(st["act"].get("rush") for st in case["steps"])
+        orig_gsp = State.__dict__.get("get_service_params")
+        if rushing:
+            real = State.get_service_params
+
+            async def slow_get_service_params(cls):
+                await asyncio.sleep(0.003)
+                return await real()
+            State.get_service_params = classmethod(slow_get_service_params)
+            state["restore"] = lambda: setattr(State, "get_service_params", orig_gsp)
         for st in case["steps"]:
             a = st["act"]
+            if a.get("rush"):
+                try:
+                    await do(a)
+                except Exception as exc:
+                    out["error"] = "rush step failed: %r" % exc
+                out["steps"].append({"act": a, "obs": {"skip": 1}})
+                continue
             try:
                 res = await do(a)
             except Exception as exc:  # recorded, decided by the trace specification (no such behaviour)
@@ -375,10 +421,13 @@ def run_case(case):
             obs = dict(t2)
             obs["runs"] = sorted(rec, key=lambda r: (r["g"], r["k"], r["x"], r["data"]))
             del rec[:]
+            res.setdefault("o", {"data": [], "ctx": False, "blk": False, "rsp": False})
             obs["res"] = res
             obs["base"] = baseline()
             out["steps"].append({"act": a, "obs": obs})
         gc.unfreeze()
+        if state.get("restore"):
+            state["restore"]()
 
     try:        # class-level registries that world.reset() does not know (present only with the proposed fix)
         from custom_components.pyscript.function import Function as _F
@@ -426,7 +475,7 @@ def unset(v):
 def sim_cfg(path, consts, extra=""):
     c = {"MaxGen": 8, "MaxSteps": 12, "Ctx": '{"c1", "c2", "c3"}', "Name": '{"f", "g", "h"}', "FlagSets": "{{}}",
          "SubSet": '{"dm"}', "StartedSet": "{TRUE, FALSE}", "Eager": "TRUE", "DeclSet": "AllDecls",
-         "MaxDefs": 2, "Vias": '{"exec", "run"}',
+         "MaxDefs": 2, "Vias": '{"exec", "run"}', "Rush": "FALSE",
          "Acts": "{%s}" % ", ".join('"%s"' % a for a in ALL_ACTS)}
     c.update(consts)
     with open(path, "w") as f:
@@ -484,7 +533,26 @@ DECL_POOL = [
     {"st": ["c"], "ev": ["e1", "e2"], "tt": ["shutdown", "timer"], "svc": [], "resp": "none", "sf": "stack"},
     {"st": ["b", "b.old", "c"], "ev": [], "tt": ["startup"], "svc": [], "resp": "none", "sf": "stack"},
 ]
-OUT_GIVE = ["p=1", "p=2,q=x", "p=1,blocking=True", "return_response=False,p=2,q=x", "blocking=False"]
+def kw(k, t, v):
+    return {"k": k, "t": t, "v": v}
+
+
+# keyword sets of outgoing calls (= OutGives of Lifecycle.tla, each sorted by name): ordinary parameters, call
+# options of the qualifying type (Context / bool), and parameters merely NAMED like call options
+OUT_GIVE = [
+    [kw("p", "str", "1")],
+    [kw("p", "str", "2"), kw("q", "str", "x")],
+    [kw("blocking", "bool", "True"), kw("p", "str", "1")],
+    [kw("p", "str", "2"), kw("q", "str", "x"), kw("return_response", "bool", "False")],
+    [kw("blocking", "bool", "False")],
+    [kw("context", "str", "evening"), kw("level", "int", "3")],
+    [kw("blocking", "str", "later"), kw("p", "str", "1")],
+    [kw("blocking", "int", "0"), kw("context", "none", "None"), kw("return_response", "int", "3")],
+    [kw("context", "ctx", "vfctx"), kw("p", "str", "1")],
+    [kw("blocking", "bool", "True"), kw("context", "ctx", "vfctx"), kw("return_response", "bool", "True"), kw("x", "int", "1")],
+    [kw("return_response", "str", "no"), kw("x", "int", "1")],
+    [kw("blocking", "none", "None"), kw("return_response", "bool", "True")],
+]
 
 
 def gen_random(r, nsteps, ctxs, mask):
@@ -675,7 +743,7 @@ def gen_random_case(seed, nsteps, ctxs, mask):
 # validation by TLC
 def slim(case):
     return {"id": case["id"], "sub": case["sub"], "started": case["started"], "ctxs": case["ctxs"],
-            "steps": [{"act": s["act"], "obs": s["obs"]} for s in case["steps"]]}
+            "steps": [{"act": s["act"], "obs": s["obs"], "rush": bool(s["act"].get("rush"))} for s in case["steps"]]}
 
 
 def run_trace(ctx, cases, flagsets, label, workers=4):
@@ -804,6 +872,8 @@ def selftest(ctx, accepted_cases, want=24):
     for c in accepted_cases:
         if len(bad) >= want:
             break
+        if any(s["act"].get("rush") for s in c["steps"]):
+            continue
         steps = c["steps"]
         idx = [i for i, s in enumerate(steps) if s["obs"]["runs"]]
         if idx:
@@ -816,6 +886,12 @@ def selftest(ctx, accepted_cases, want=24):
             c2 = copy.deepcopy(slim(c))
             c2["id"] = "corrupt-result/" + c["id"]
             c2["steps"][idx[0]]["obs"]["res"]["g"] += 1
+            bad.append(c2)
+        idx = [i for i, s in enumerate(steps) if s["obs"]["res"]["k"] == "out" and s["obs"]["res"]["o"]["data"]]
+        if idx:
+            c2 = copy.deepcopy(slim(c))
+            c2["id"] = "corrupt-outdata/" + c["id"]
+            c2["steps"][idx[-1]]["obs"]["res"]["o"]["data"].pop()
             bad.append(c2)
         i = r.randrange(len(steps))
         c2 = copy.deepcopy(slim(c))
@@ -845,7 +921,44 @@ def D(st=(), ev=(), tt=(), svc=(), resp="none", sf="stack"):
     return {"st": sorted(st), "ev": sorted(ev), "tt": sorted(tt), "svc": sorted(svc), "resp": resp, "sf": sf}
 
 
-def witnesses():
+RACE_DECLS = [D(st=["a"], ev=["e1"], svc=["s1"]), D(st=["b"], ev=["e1"], svc=["s1"], resp="optional"),
+              D(ev=["e1", "e2"], svc=["s2"]), D(st=["a", "b"], svc=["s1", "s2"], resp="optional")]
+
+
+def race_after(first, second, r=None):
+    if second["a"] == "unload":
+        return [first, second]
+    acts = [first, second, {"a": "fire", "e": "e1"}, {"a": "set", "x": "a"}, {"a": "set", "x": "b"},
+            {"a": "call", "s": "s1", "data": "p=1", "rr": False}]
+    if second["a"] != "unload":
+        acts.append({"a": "unload"})
+    return acts
+
+
+def gen_race(r):
+    """Random member of the family: a definition whose managers / trigger tasks are started as tasks (Jupyter cell,
+    file load) immediately followed - no quiescence - by something that ends it."""
+    d, d2 = r.choice(RACE_DECLS), r.choice(RACE_DECLS)
+    n = r.choice(["f", "g"])
+    if r.random() < 0.4:
+        c = "c3"
+        first = {"a": "define", "c": c, "n": n, "d": d, "g": 1, "rush": True}
+        kinds = ["del", "redef", "close", "rebindover"]
+    else:
+        c = r.choice(["c1", "c2"])
+        first = {"a": "reload", "c": c, "defs": [{"n": n, "d": d}], "g": 1, "rush": True}
+        kinds = ["del", "redef", "close", "reload", "reload2", "unload"]
+    k = r.choice(kinds)
+    second = {"del": {"a": "del", "c": c, "n": n}, "redef": {"a": "define", "c": c, "n": n, "d": d2, "g": 2},
+              "close": {"a": "close", "c": c}, "reload": {"a": "reload", "c": c, "defs": [], "g": 2},
+              "reload2": {"a": "reload", "c": c, "defs": [{"n": n, "d": d2}], "g": 2}, "unload": {"a": "unload"},
+              "rebindover": {"a": "define", "c": c, "n": n, "d": D(st=["c"]), "g": 2}}[k]
+    acts = race_after(first, second)
+    # a plain call of a response-only service is not generated: none of RACE_DECLS is response-only
+    return {"started": True, "acts": acts}
+
+
+def witnesses(race=True):
     s1 = D(svc=["s1"])
     multi = D(st=["a", "a.old", "b", "c"])
     ev = D(ev=["e1"])
@@ -872,6 +985,28 @@ def witnesses():
     w.append(("multiarg", ["dm"], [
         {"a": "define", "c": "c1", "n": "f", "d": D(ev=["e1"], svc=["s1", "s2"], sf="args"), "g": 1},
         {"a": "call", "s": "s1", "data": "-", "rr": False}, {"a": "fire", "e": "e1"}]))
+    # a deletion / redefinition / reload / unload landing while the managers of the preceding action are still
+    # starting (@service is written above the triggers and its start awaits): a stopped manager starts nothing more
+    sv = D(st=["a"], ev=["e1"], svc=["s1"])
+    sv2 = D(st=["b"], ev=["e1"], svc=["s1"], resp="optional")
+    after = [{"a": "fire", "e": "e1"}, {"a": "set", "x": "a"}, {"a": "call", "s": "s1", "data": "p=1", "rr": False},
+             {"a": "unload"}]
+    cell = {"a": "define", "c": "c3", "n": "f", "d": sv, "g": 1, "rush": True}
+    load = {"a": "reload", "c": "c1", "defs": [{"n": "f", "d": sv}], "g": 1, "rush": True}
+    for name, first, second in [] if not race else [
+            ("cell-del", cell, {"a": "del", "c": "c3", "n": "f"}),
+            ("cell-redef", cell, {"a": "define", "c": "c3", "n": "f", "d": sv2, "g": 2}),
+            ("cell-close", cell, {"a": "close", "c": "c3"}),
+            ("load-del", load, {"a": "del", "c": "c1", "n": "f"}),
+            ("load-redef", load, {"a": "define", "c": "c1", "n": "f", "d": sv2, "g": 2}),
+            ("load-reload", load, {"a": "reload", "c": "c1", "defs": [], "g": 2}),
+            ("load-reload2", load, {"a": "reload", "c": "c1", "defs": [{"n": "f", "d": sv2}], "g": 2}),
+            ("load-close", load, {"a": "close", "c": "c1"})]:
+        w.append(("race-" + name, ["dm", "legacy"], [first, second] + after))
+    if race:
+        w.append(("race-load-unload", ["dm", "legacy"], [load, {"a": "unload"}]))
+    w.append(("out", ["dm", "legacy"],
+              [{"a": "out", "c": "c1", "form": f, "give": g} for g in OUT_GIVE for f in ("name", "call")]))
     cases = []
     for name, subs, acts in w:
         for sub in subs:
@@ -895,7 +1030,7 @@ def acts(*names):
 
 def mc_cfg(path, consts, invariants=(), properties=(), constraint=None):
     c = {"MaxGen": 4, "MaxSteps": 6, "Ctx": '{"c1"}', "Name": '{"f", "g"}', "FlagSets": "{{}}", "SubSet": '{"dm"}',
-         "StartedSet": "{TRUE}", "Eager": "TRUE", "DeclSet": "{1}", "MaxDefs": 1, "Vias": '{"exec"}', "Acts": ACTS_ALL}
+         "StartedSet": "{TRUE}", "Eager": "TRUE", "DeclSet": "{1}", "MaxDefs": 1, "Vias": '{"exec"}', "Rush": "FALSE", "Acts": ACTS_ALL}
     c.update(consts)
     lines = ["SPECIFICATION Spec", "CONSTANTS"]
     for k, v in c.items():
@@ -956,10 +1091,15 @@ def case_key(c):
     return json.dumps([c["sub"], c["started"], [s["act"] for s in c["steps"]]], sort_keys=True)
 
 
+def observed(c):
+    """The steps that carry an observation (not the "rush" steps)."""
+    return [s for s in c["steps"] if "runs" in s["obs"]]
+
+
 def nontrivial(c):
     """At least one function ran and at least one table changed during the recording."""
-    ran = any(s["obs"]["runs"] for s in c["steps"])
-    tabs = {json.dumps({k: s["obs"][k] for k in ("cnt", "sub", "evq", "tm", "act")}, sort_keys=True) for s in c["steps"]}
+    ran = any(s["obs"]["runs"] for s in observed(c))
+    tabs = {json.dumps({k: s["obs"][k] for k in ("cnt", "sub", "evq", "tm", "act")}, sort_keys=True) for s in observed(c)}
     return ran and len(tabs) > 1
 
 
@@ -1024,7 +1164,8 @@ def main_common(ctx, prop, mc_jobs, sim_consts, pool, sizes):
     # (T) random longer sequences
     rnd_u = [gen_random_case(ctx.seed * 100000 + i, sizes["steps"], allctx, set()) for i in range(sizes["rnd"])]
     rnd_m = [gen_random_case(ctx.seed * 100000 + 50000 + i, sizes["steps"], allctx, set(ALL_FLAGS)) for i in range(sizes["rnd"])]
-    cases = witnesses()
+    cases = witnesses(race=sizes.get("race", 0) > 0)
+    cases += to_cases([gen_race(random.Random(ctx.seed * 1000 + 77 + i)) for i in range(sizes.get("race", 0))], allctx, "X/u")
     cases += to_cases(beh_u, allctx, "R/u")
     cases += to_cases(rnd_u, allctx, "T/u")
     masked = to_cases(beh_m, allctx, "R/m") + to_cases(rnd_m, allctx, "T/m")
@@ -1037,7 +1178,8 @@ def main_common(ctx, prop, mc_jobs, sim_consts, pool, sizes):
     byid = {c["id"]: c for c in done}
     accepted, rejections = validate(
         ctx, done, "main",
-        beside=lambda acc: selftest(ctx, [byid[i] for i in acc if len(byid[i]["steps"]) >= 4][:12]))
+        beside=lambda acc: selftest(ctx, sorted([byid[i] for i in acc if len(byid[i]["steps"]) >= 4],
+                                                key=lambda c: not c["id"].startswith("w/out"))[:12]))
     acc_cases = [byid[i] for i in accepted]
     ctx.cov["phase_wall_s"] = {"model_checking_and_simulation": round(t_gen - ctx.t0, 1), "execution_on_real_code": round(t_exec - t_gen, 1),
                                "trace_validation": round(time.time() - t_exec, 1)}
@@ -1048,7 +1190,8 @@ def main_common(ctx, prop, mc_jobs, sim_consts, pool, sizes):
     ctx.cov["replayed_behaviours"] = len([c for c in done if c["id"].startswith("R/")])
     ctx.cov["random_sequences"] = len([c for c in done if c["id"].startswith("T/")])
     ctx.cov["witness_recordings"] = len([c for c in done if c["id"].startswith("w/")])
-    ctx.cov["evaluations"] = sum(len(c["steps"]) for c in done)
+    ctx.cov["evaluations"] = sum(len(observed(c)) for c in done)
+    ctx.cov["rushed_pairs"] = sum(1 for c in done for s in c["steps"] if s["act"].get("rush"))
     ctx.cov["distinct_nontrivial"] = len({case_key(c) for c in done if nontrivial(c)})
     ctx.cov["rule"] = ("one case = one action sequence (TLC-simulated behaviour of Lifecycle.tla, random longer sequence, or "
                        "directed witness) executed on the real integration in one subsystem (dm / legacy) with an observation "
@@ -1064,7 +1207,7 @@ def main_common(ctx, prop, mc_jobs, sim_consts, pool, sizes):
         for s in c["steps"]:
             k = s["act"]["a"]
             ctx.cov["steps_by_action"][k] = ctx.cov["steps_by_action"].get(k, 0) + 1
-    ctx.cov["runs_observed"] = sum(len(s["obs"]["runs"]) for c in done for s in c["steps"])
+    ctx.cov["runs_observed"] = sum(len(s["obs"]["runs"]) for c in done for s in observed(c))
     ctx.cov["hash_seeds"] = [0, 1, 2, 3]
     # reference cycles that only the cyclic collector breaks: reported separately
     ctx.cov["steps_whose_tables_changed_only_after_gc_collect"] = sum(c.get("gcdep", 0) for c in done)
@@ -1078,7 +1221,7 @@ def main_common(ctx, prop, mc_jobs, sim_consts, pool, sizes):
     ctx.cov["rejections_by_explaining_deviations"] = expl
     for c in [c for c in acc_cases if len(c["steps"]) >= 5][:2]:
         ctx.sample({"id": c["id"], "steps": [{"act": s["act"], "runs": s["obs"]["runs"], "cnt": s["obs"]["cnt"],
-                                               "sub": s["obs"]["sub"]} for s in c["steps"][:8]]})
+                                               "sub": s["obs"]["sub"]} for s in observed(c)[:8]]})
     ctx.assumptions += [
         "the code is sampled at quiescence only (settle + 10 ms of virtual time + gc.collect()); the window between a "
         "deletion and the completion of the deferred stop is explored in the model (Eager = FALSE) and not required of the code",
